@@ -33,6 +33,8 @@ def main():
     try:
         if a.replay:
             rep = json.load(open(a.replay))
+            if hasattr(mod, 'replay') and a.prop in ('C13', 'C15'):
+                return mod.replay(a.prop, a.replay)
             if rep.get('driver', '').startswith('harness.drivers.'):
                 return core.generic_replay(mod, a.prop, a.replay)
             import importlib as _il
